@@ -266,7 +266,7 @@ func loopHeadOf(in ssa.Instruction) ssa.Instruction {
 	for _, g := range core.GuardsOf(in) {
 		cd := core.CondOf(g.If.Cond)
 		if cd.Op == token.LSS && isLenCall(cd.Y) && g.Branch {
-			if best == nil || best.Block().Dominates(g.If.Block()) {
+			if best == nil || core.BlockDominates(best.Block(), g.If.Block()) {
 				best = g.If
 			}
 		}
@@ -684,7 +684,7 @@ func rule036(r *core.Run) {
 					isLoop = true
 				}
 			}
-			if isLoop && (head == nil || head.Block().Dominates(g.If.Block())) {
+			if isLoop && (head == nil || core.BlockDominates(head.Block(), g.If.Block())) {
 				head = g.If
 			}
 		}
